@@ -490,7 +490,9 @@ impl<'a> GeneratorState<'a> {
                     let left = self.generate_expr(lhs, pos, high_byte, high_byte)?;
                     let right = self.generate_expr(rhs, pos, high_byte, high_byte)?;
                     let ret = self.generate_assign(&left, &right, pos, high_byte);
-                    if self.saved_y {
+                    // A destination indexed by the parked Y keeps it until its high byte is stored
+                    let left_needs_y = matches!(left, ExprType::AbsoluteY(_));
+                    if self.saved_y && !left_needs_y {
                         self.asm_restore_y();
                         self.saved_y = false;
                         self.tmp_in_use = false;
@@ -520,6 +522,13 @@ impl<'a> GeneratorState<'a> {
                             }
                             _ => (),
                         };
+                    }
+                    if self.saved_y {
+                        self.asm_restore_y();
+                        self.saved_y = false;
+                        self.tmp_in_use = false;
+                        self.flags = FlagsState::Y;
+                        self.carry_flag_ok = false;
                     }
                     ret
                 }
